@@ -250,13 +250,16 @@ package sem
 //@   ensures [C14.helper C06.helper] r1 == nil ==> r0 == verOf(a).Compare(verOf(b))
 //@ func LatestVersion
 //@   ensures [C14.helper C06.helper] r1 == nil <==> accepts(a, formVersion) && accepts(b, formVersion)
-//@   ensures [C14.helper C06.helper] r1 == nil ==> r0 == ite(verOf(a).Compare(verOf(b)) == -1, verOf(b), verOf(a))
+//@   ensures [C14.helper C06.helper] r1 == nil && verOf(a).Compare(verOf(b)) == -1 ==> r0 == verOf(b)
+//@   ensures [C14.helper C06.helper] r1 == nil && verOf(a).Compare(verOf(b)) != -1 ==> r0 == verOf(a)
 //@ func LatestTag
 //@   ensures [C14.helper C06.helper] r1 == nil <==> accepts(a, formTag) && accepts(b, formTag)
-//@   ensures [C14.helper C06.helper] r1 == nil ==> r0 == ite(verOf(a).Compare(verOf(b)) == -1, verOf(b), verOf(a))
+//@   ensures [C14.helper C06.helper] r1 == nil && verOf(a).Compare(verOf(b)) == -1 ==> r0 == verOf(b)
+//@   ensures [C14.helper C06.helper] r1 == nil && verOf(a).Compare(verOf(b)) != -1 ==> r0 == verOf(a)
 //@ func Latest
 //@   ensures [C14.helper C06.helper] r1 == nil <==> accepts(a, formVersion|formTag) && accepts(b, formVersion|formTag)
-//@   ensures [C14.helper C06.helper] r1 == nil ==> r0 == ite(verOf(a).Compare(verOf(b)) == -1, verOf(b), verOf(a))
+//@   ensures [C14.helper C06.helper] r1 == nil && verOf(a).Compare(verOf(b)) == -1 ==> r0 == verOf(b)
+//@   ensures [C14.helper C06.helper] r1 == nil && verOf(a).Compare(verOf(b)) != -1 ==> r0 == verOf(a)
 
 // C14 lemmas, over the contracts only.
 // build metadata never matters; reflexive; next-* results are plain releases strictly above the receiver
